@@ -329,7 +329,7 @@ def replay(body) -> int:
 
 def run_check(prop, tier, master, n_runs=None, budget_s=None):
     t0 = time.time()
-    budget_s = budget_s or (150 if tier == "quick" else 1800)
+    budget_s = core.budget(tier, budget_s, thorough=1800.0)
     nproc = n_runs or (32 if tier == "quick" else 320)
     res, errors, skipped = common.run_machine_batch("sim.machines.c20", f"C20-{tier}", master, nproc, 50 if tier == "quick" else 300, 12, budget_s)
     summ, viol = common.summarise(res)
